@@ -74,7 +74,8 @@ def importLines (s : St) : String :=
     | .error _ => "crash"
     | .ok (im1, _) =>
       let im2 := im1.useStd s.quals
-      "imports " ++ ",".intercalate (sortStrs (im2.resolve.map fun (p, a) => asc p ++ "=" ++ asc a))
+      let res := if Generated.C01.importsScanBody then filterMentioned s.quals im2.resolve else im2.resolve
+      "imports " ++ ",".intercalate (sortStrs (res.map fun (p, a) => asc p ++ "=" ++ asc a))
 
 def errStr : Err → String
   | .reserve _ _ _ => "reject:reserve"
@@ -86,7 +87,8 @@ def step (s : St) (line : String) : St × String :=
     let get (k : String) : Bool := rest.any (fun t => t == k ++ "=1")
     ({ ft := { compat := get "compat", kuf := get "kuf", deq := get "deq", setter := get "setter", noProcessor := get "noproc",
                enumAnn := get "enumann", fieldMask := get "fm", halfway := get "halfway", fastgo := be == "fastgo",
-               adaptor := get "adaptor" } }, "ok")
+               adaptor := get "adaptor", resV2 := Generated.C01.reservesDeclaredMethods,
+               svcV2 := Generated.C01.reservesClientAccessor } }, "ok")
   | ["I", r, v] => ({ s with table := put (hex? r) (hex? v) s.table }, "ok")
   | "F" :: _ => ({ ft := s.ft, table := s.table }, "ok")
   | ["V", n, e] => ({ s with svcs := { name := hex? n, fns := [] } :: s.svcs, bases := (hex? n, flag e) :: s.bases }, "ok")
